@@ -33,6 +33,7 @@ public:
         if (it != m_index.end() && it->offset < r.end()) {
             offset = it->offset;
             length = std::min(it->end(), r.end()) - offset;
+            VERIF_COV(C_RANGELOCK_WAITED);
             it->cond.wait(m_lock);
             return -1;
         } else {
@@ -64,6 +65,7 @@ public:
         SCOPED_LOCK(m_lock);
         auto it = m_index.lower_bound(r);
         if (it != m_index.end() && it->offset < r.end()) {
+            VERIF_COV(C_RANGELOCK_WAITED);
             it->cond.wait(m_lock);
             return nullptr;
         } else {
